@@ -25,12 +25,27 @@ PROPS = {
                       "change reaches every track the audio thread owns; the full claim is refuted for the current code by an "
                       "explicit witness schedule (C16_stale_rate_reachable) and holds in every history where no track is in flight "
                       "across a change (C16_rate_in_force_partial, inductive invariant). The model runs as a twin against kira "
-                      "through the public API with probe effects that log init / on_change_sample_rate / dt",
-        "level_note": "PARTIAL: the time-scaling clauses (sounds keep pitch/duration, clocks and tweens keep real-time speed, delay "
-                      "times and filter frequencies keep their values) follow from the closed forms of C04/C05/C06/C13-C14 in which the "
-                      "device rate only enters through dt = 1/rate; they are stated there, not repeated here. Atomicity finer than "
+                      "through the public API with probe effects that log init / on_change_sample_rate / dt (suite srate). "
+                      "Effect level (suite fxrate + theorems over the reals about the effect models): in EVERY history of rate "
+                      "changes, on_start_processing and process calls the delay line has max(floor(delay*sr),1) frames for the rate "
+                      "sr in force (the requested seconds to within one frame) and the effects nested in its feedback loop have been "
+                      "told that rate (C16_delay_line_tracks_rate, C16_delay_forwards_rate); the reverb's lines are rebuilt as "
+                      "floor(c*sr/44100) for the rate given, whatever the earlier rate (C16_reverb_sizes_track_rate); a filter / EQ "
+                      "call uses coefficients computed from that call's dt only, nothing is carried over from an earlier rate, so "
+                      "the corner stays at the requested hertz (C16_filter_corner_tracks_rate, C16_eq_centre_tracks_rate). The same "
+                      "models run as the fxrate twin bit-for-bit against kira's Delay (with a probe, a real Filter and a real Delay "
+                      "nested in the feedback loop), Reverb, Filter and EqFilter under init / on_change_sample_rate / process with "
+                      "dt = 1/rate in force, with implementation-side oracles nested_rate_stale, nested_dt, echo_time, "
+                      "reverb_reflection_time, corner_gain, process_panics",
+        "level_note": "PARTIAL: the remaining time-scaling clauses (sounds keep pitch/duration, clocks and tweens keep real-time "
+                      "speed) follow from the closed forms of C04/C05/C06 in which the device rate only enters through "
+                      "dt = 1/rate; they are stated there, not repeated here. The effect theorems are over ideal real arithmetic "
+                      "with filter/EQ parameters at rest; the float behaviour is the bit-exact correspondence. Atomicity finer than "
                       "the four labelled steps (weak memory) is not modelled",
-        "assumptions": ["handles stay alive (removal is C12's subject)", "sequentially consistent atomics"],
+        "assumptions": ["handles stay alive (removal is C12's subject)", "sequentially consistent atomics",
+                        "effect level: feedback effects keep the slice length; filter / EQ parameters at rest for the corner theorems; "
+                        "process slices no longer than the internal buffer size; delay times away from the f64 whole-frame boundary "
+                        "for the echo_time oracle (known finding delay-length-float-floor)"],
     },
     "C01": {
         "suites": [
